@@ -94,6 +94,19 @@ Fixpoint chk_sticky_res (st : option Z) (calls : list ocall) : bool :=
     else if Nat.eqb (oc_kind o) 6 then chk_sticky_res st r
     else chk_sticky_res None r
   end.
+(* the property text read literally: NO later call of the direction may return anything else, whatever happened
+   on the other direction in between (refuted on the unchanged code: see Properties_C09.v) *)
+Fixpoint chk_sticky_req_strict (st : option Z) (calls : list ocall) : bool :=
+  match calls with
+  | [] => true
+  | o :: r =>
+    if (Nat.eqb (oc_kind o) 0 || Nat.eqb (oc_kind o) 2)%bool then
+      match st with
+      | Some s => (oc_rc o =? s) && (match oc_events o with [] => true | _ => false end) && chk_sticky_req_strict st r
+      | None => chk_sticky_req_strict (if (oc_rc o =? c_HTP_STREAM_ERROR) || (oc_rc o =? c_HTP_STREAM_STOP) then Some (oc_rc o) else None) r
+      end
+    else chk_sticky_req_strict st r
+  end.
 Definition chk_C09 (calls : list ocall) : bool :=
   forallb chk_C09_call calls && chk_sticky_req None calls && chk_sticky_res None calls.
 
